@@ -125,6 +125,14 @@ REG["C18"] = dict(
     assumptions=["ideal-AEAD stubs for crypto/aes.NewCipher, crypto/cipher.NewGCM and crypto/rand.Reader (arbitrary nonce bytes)"],
 )
 
+REG["C14"] = dict(
+    harnesses=[H(P, "VerifH_C14_sinkFaults"), H(P, "VerifH_C14_fileHeader"), H(P, "VerifH_C14_openPrelude")],
+    explanation="(K1) the writer's sink wrapper offsetTrackingWriter (Write, WriteString, ReadFrom through io.Copy) over a model sink that fails, or short-writes without an error, at any byte offset: for every history of three operations with symbolic data the tracked offset equals the bytes the sink accepted and every refused byte is visible to the caller (non-nil error, or the short count its callers turn into io.ErrShortWrite); writeFileHeader writes the magic once and reports a refusing sink. (K2) the prelude of OpenFile (magic, trailer, footer-length arithmetic, optimistic footer read) on a model io.ReaderAt over symbolic file bytes of every size 0..14 with an injected read fault: never a panic, never a successfully opened file, and a read error always surfaces; the Thrift footer decode is cut off by a stub. Counterexamples of K2 are re-enacted natively: every strict prefix of a real file is rejected and single failing ReadAt calls surface.",
+    bounds={"quick": "K1: fault offset 0..9, 3 operations of 0..4 bytes; K2: file size 0..14 symbolic bytes (claimed footer length <=16), fault on ReadAt call 0..2 (error or short read), optimistic read on/off, two buffer sizes", "thorough": "same"},
+    outside=["the ~40 write sites inside page, dictionary, bloom and footer writers", "'every strict prefix of every produced file is rejected' beyond the prelude (needs the real footer decode)", "bufio write buffer and page buffer pools"],
+    assumptions=["K2: stub for thrift.Decoder.Decode (always fails: the footer is not decodable)", "footer length field of the symbolic file is assumed <= 16 to bound allocation"],
+)
+
 LEVEL_TEXT = "bounded symbolic execution of the real functions (go/ssa of the current /repo tree) with an SMT solver deciding every assertion for all inputs inside the stated bounds; counterexamples are replayed against the natively compiled code before being reported"
 
 def main():
